@@ -144,3 +144,85 @@ def gc11(ctx):
                           (bad[0][1][:80], b.loc(bad[0][2])) if bad else ('-', '-')))
     if n == 0:
         ctx.missing('gc-callers', 'no API body calls the GC pass')
+
+
+@rule('NB2', ['C01', 'C02'], floor=2, template='must-store')
+def nb2(ctx):
+    """When next_block reports a new block the reader's position describes it: block id advanced (same
+    file) or file / file number / block id = 0 replaced together (next file)."""
+    bs = [b for b in ctx.f.bodies.values() if b.name.startswith('<' + RR + ' as block_read_write::BlockRead>::next_block')]
+    if not bs:
+        ctx.missing('next_block', 'BlockRead::next_block impl of RollingReader not found')
+        return
+    b = bs[0]
+    st = {}
+    for (p, pl, rv) in b.stores:
+        loc = mem_loc(pl)
+        if loc and loc.startswith('RollingReader.'):
+            st.setdefault(loc, []).append((p, rv))
+    k = 0
+    for e in b.exits():
+        if e['kind'] == 'ok' and e['ops'] and op_const_bits(e['ops'][0]) == 1:
+            k += 1
+            dom = {loc: [(p, rv) for (p, rv) in v if b.dominates(p, e['point'])] for loc, v in st.items()}
+            same_file = any(rv['k'] == 'use' and op_const_bits(rv['op']) is None for (p, rv) in dom.get('RollingReader.block_id', []))
+            next_file = bool(dom.get('RollingReader.file')) and bool(dom.get('RollingReader.file_number')) and any(rv['k'] == 'use' and op_const_bits(rv['op']) == 0 for (p, rv) in dom.get('RollingReader.block_id', []))
+            ctx.check(same_file or next_file, 'ok-true#%d' % k, where(b, e['point']), 'Ok(true) dominated by %s' % ('block_id += 1' if same_file else 'file, file_number and block_id = 0 replaced together'),
+                      'next_block reports a new block without updating the reader position consistently (block id, or file + file number + block id): the writer built from the reader would resume at the wrong place')
+    if k == 0:
+        ctx.missing('ok-true', 'no Ok(true) exit in next_block')
+
+
+@rule('GC12', ['C06', 'C01'], floor=1, template='must-flow')
+def gc12(ctx):
+    """Every file number minted for a new WAL file is registered in the tracker (otherwise the file is
+    never accounted for nor reclaimed)."""
+    n = 0
+    FN = 'rolling::file_number::FileNumber'
+    for b in ctx.f.bodies.values():
+        if not b.path.startswith('rolling::file_number::FileTracker::') or b.is_closure:
+            continue
+        mints = [cs for cs in b.calls if cs.path.endswith('FileNumber::new')]
+        if not mints:
+            continue
+        fl = flow_of(b)
+        for m in mints:
+            n += 1
+            t = fl.forward(set(fl.call_result_nodes(m)), skip_mem=True)
+            ins = [cs for cs in b.calls if re.search(r'BTreeSet::<%s>::insert$' % re.escape(FN), cs.name) and len(cs.args) > 1 and fl.op_tainted(cs.args[1], t)]
+            exits = b.return_points()
+            must = bool(ins) and not any(e in b.reach_after(m.point, avoid=[c.point for c in ins]) for e in exits)
+            ctx.check(must, '%s:minted-is-tracked' % b.path, where(b, m.point), 'a freshly minted FileNumber is inserted into the tracked set on every path',
+                      'a FileNumber is minted for a new WAL file without being inserted into the tracked set: the file is invisible to disk accounting and to GC')
+    if n == 0:
+        ctx.missing('mint', 'no FileNumber::new call in FileTracker methods')
+
+
+@rule('RP3', ['C01', 'C09'], floor=1, template='guard-polarity')
+def rp3(ctx):
+    """Replay of an append re-aligns the queue only when the queue is unknown."""
+    from rules_open import replay_sites
+    from rules_log import replay_arms
+    rs = replay_sites(ctx)
+    if not rs:
+        ctx.missing('replay', 'no replay loop')
+        return
+    b, cs0 = rs[0]
+    arms = replay_arms(ctx, b, cs0)
+    if 'AppendRecords' not in arms:
+        ctx.missing('arm', 'no AppendRecords replay arm')
+        return
+    (edge, region) = arms['AppendRecords']
+    n = 0
+    gates = [(te, fe, cs) for (bi, c, te, fe, cs) in b.switches_on_call(lambda c: c.node is not None and not ctx.E.call_may(c, 'MEM') and c.path.startswith('mem::queues::MemQueues::') and c.body.local_ty(c.dest_local() or 0) == 'bool') if cs.point in region]
+    for cs in b.calls:
+        if cs.point not in region or cs.node is None:
+            continue
+        cb = ctx.f.bodies[cs.node]
+        if cb.path.startswith('mem::queues::MemQueues::') and cb.arg_count == 3 and cb.local_ty(3) == 'u64' and cb.ret_ty == '()':
+            n += 1
+            ok = any(b.edge_dominates(fe, cs.point) and cs.point not in b.reach([te[1]], avoid=[cs0.point]) for (te, fe, _g) in gates)
+            ctx.check(ok, 'append-arm:realign-only-if-unknown', where(b, cs.point), 're-alignment on the `queue unknown` edge only',
+                      'replaying an append re-aligns (resets) the queue even when it is already known: every replayed batch would wipe the records replayed before it')
+    if n == 0:
+        ctx.missing('realign', 'no re-alignment call in the AppendRecords replay arm')
